@@ -52,6 +52,6 @@ let main_loop handle =
       let out = (try handle (String.split_on_char ' ' (String.trim line))
                  with Failure m -> "DRIVER-ERROR " ^ m | Not_found -> "DRIVER-ERROR not_found"
                     | Stack_overflow -> "DRIVER-ERROR stack_overflow") in
-      print_string out; print_char '\n'
+      print_string out; print_char (Char.chr 10); flush stdout
     done
   with End_of_file -> ()
